@@ -1,12 +1,8 @@
 //! qv — property-based checks for quil-rs. See /verif/DESIGN.md.
 
-mod engine;
-mod gen;
-mod model;
-mod props;
-
-use engine::runner::{self, CheckArgs, StreamArgs};
-use engine::{Case, Tier};
+use qv::engine::runner::{self, CheckArgs, StreamArgs};
+use qv::engine::{self, Case, Tier};
+use qv::{gen, props};
 use std::path::PathBuf;
 
 fn parse_tier(s: &str) -> Tier {
